@@ -12,73 +12,14 @@ package syncer
 // The time.NewTicker calls are not substituted: short real tickers are used instead.
 
 import (
-	"bufio"
 	"fmt"
 	"strings"
-	"sync"
 	"testing"
 	"time"
 
 	"github.com/mgtv-tech/redis-GunYu/config"
-	"github.com/mgtv-tech/redis-GunYu/pkg/redis/client/common"
 	usync "github.com/mgtv-tech/redis-GunYu/pkg/sync"
 )
-
-type verifBatch struct {
-	cmds []string
-	args [][]interface{}
-}
-
-type verifTarget struct {
-	mu      sync.Mutex
-	batches []*verifBatch
-}
-
-type verifBatcher struct {
-	t *verifTarget
-	b *verifBatch
-}
-
-func (b *verifBatcher) Put(cmd string, args ...interface{}) error {
-	b.b.cmds = append(b.b.cmds, cmd)
-	b.b.args = append(b.b.args, append([]interface{}{}, args...))
-	return nil
-}
-func (b *verifBatcher) commit() {
-	b.t.mu.Lock()
-	b.t.batches = append(b.t.batches, b.b)
-	b.t.mu.Unlock()
-}
-func (b *verifBatcher) Exec() ([]interface{}, error) {
-	b.commit()
-	return make([]interface{}, len(b.b.cmds)), nil
-}
-func (b *verifBatcher) Len() int        { return len(b.b.cmds) }
-func (b *verifBatcher) Dispatch() error { b.commit(); return nil }
-func (b *verifBatcher) Receive() ([]interface{}, error) {
-	return make([]interface{}, len(b.b.cmds)), nil
-}
-
-type verifRedis struct{ t *verifTarget }
-
-func (f *verifRedis) Close() error                                   { return nil }
-func (f *verifRedis) Do(string, ...interface{}) (interface{}, error) { return "OK", nil }
-func (f *verifRedis) Send(string, ...interface{}) error              { return nil }
-func (f *verifRedis) SendAndFlush(string, ...interface{}) error      { return nil }
-func (f *verifRedis) Receive() (interface{}, error)                  { return "OK", nil }
-func (f *verifRedis) ReceiveString() (string, error)                 { return "OK", nil }
-func (f *verifRedis) ReceiveBool() (bool, error)                     { return true, nil }
-func (f *verifRedis) BufioReader() *bufio.Reader                     { return nil }
-func (f *verifRedis) BufioWriter() *bufio.Writer                     { return nil }
-func (f *verifRedis) Flush() error                                   { return nil }
-func (f *verifRedis) RedisType() config.RedisType                    { return config.RedisTypeStandalone }
-func (f *verifRedis) Addresses() []string                            { return nil }
-func (f *verifRedis) NewBatcher(bool) common.CmdBatcher {
-	return &verifBatcher{t: f.t, b: &verifBatch{}}
-}
-func (f *verifRedis) NewTxnBatcher() common.CmdBatcher { return f.NewBatcher(false) }
-func (f *verifRedis) IterateNodes(func(string, interface{}, error), string, ...interface{}) {
-}
 
 type verifItem struct {
 	cmd    string
